@@ -48,7 +48,7 @@ def ENCODED():
             g.CommandStreamEmitter.cmd_wait, g.CommandStreamEmitter.cmd_do_operation, rs.RangeSet.intersects,
             rs.RangeSet.__or__, rs.RangeSet.__ior__, rs.MemoryRangeSet.intersects, rs.MemoryRangeSet.__ior__,
             rs.MemoryAccessSet.add, rs.MemoryAccessSet.conflicts, u.get_dma_memory_accesses, u.memory_range_set,
-            u.calc_blockdep, u.get_offset_block_coords, u.get_address_ranges_for_area, u.get_h_ranges, u.get_address_range, u.coords_intersect, u.intersects,
+            u.calc_blockdep, u.get_ifm_ofm_block_depth, u.get_first_job_input_volume, u.get_address_ranges, u.get_offset_block_coords, u.get_address_ranges_for_area, u.get_h_ranges, u.get_address_range, u.coords_intersect, u.intersects,
             __import__("ethosu.vela.architecture_features", fromlist=["x"]).ArchitectureFeatures.get_ifm_block_size, u.get_op_memory_accesses]
 
 
@@ -504,7 +504,75 @@ def block_coords(V, wb, hb, db):
             ("height coordinate: height last", L(got.y) == L(ay) + yi * L(bh))]
 
 
-FUNCS = {"area_ranges": area_ranges, "block_coords": block_coords, "programmed_addresses": programmed_addresses, "ifm_block": ifm_block, "waits": waits, "wait_step": wait_step, "rangeset": rangeset, "access": access, "dma_access": dma_access, "blockdep": blockdep, "shram_writes": shram_writes}
+def footprint_strided(V, **params):
+    """the wait analysis sees an operation through get_address_ranges: a strided view is declared with its own footprint, whatever was analysed
+    before it in the same process (harness/c02.py footprint_strided)"""
+    from harness import c02
+
+    return c02.footprint_strided(V, **params)
+
+
+class _Obj:
+    def __init__(self, **kw):
+        self.__dict__.update(kw)
+
+
+def job_volume(V, accel, kind, wb, hb, db, stride):
+    """which part of the IFM the BLOCKDEP analysis assumes the consumer's job j reads (get_ifm_ofm_block_depth + get_first_job_input_volume):
+    a convolution accumulates over the IFM depth slices, ceil(ifm depth / ifm block depth) jobs per OFM block; depthwise, pooling and elementwise
+    operations run ONE job per OFM block.  Job j therefore belongs to OFM block j // jobs_per_block in the hardware's block order (depth, width,
+    height) and the analysed volume must start at that block's position times the stride and contain the channels the job reads.  Symbolic job
+    index, enumerated block grid and stride."""
+    import ethosu.vela.register_command_stream_util as u
+    import ethosu.vela.architecture_features as af
+    import ethosu.vela.numeric_util as nu
+    from ethosu.vela.architecture_features import Block
+    from ethosu.vela.operation import Kernel
+    from ethosu.vela import api as a
+    from symx import rat
+
+    arch = arch_for(accel)
+    bw, bh, bd = 8, 4, 16
+    W, H, D = wb * bw, hb * bh, db * bd
+    j = V.int("job", 0, 2)
+    optype = {"conv": a.NpuOperationType.Conv2D, "depthwise": a.NpuOperationType.ConvDepthWise, "pool": a.NpuOperationType.Pooling}[kind]
+    ifm_depth = 64 if kind == "conv" else D
+
+    def fm(h, w, d):
+        f = a.NpuFeatureMap()
+        f.data_type = a.NpuDataType.INT8
+        f.shape = a.NpuShape3D(h, w, d)
+        return f
+
+    op = _Obj(op_type=optype, ifm=fm(H * stride, W * stride, ifm_depth), ofm=fm(H, W, D), block_config=a.NpuShape3D(bh, bw, bd))
+    kernel = Kernel(1, 1, stride, stride)
+    with core.shims((af, {"min": core.smin, "max": core.smax, "int": core.sint}), (nu, {"math": rat.SMATH, "int": core.sint}),
+                    (u, {"min": core.smin, "max": core.smax, "int": core.sint})):
+        depth = u.get_ifm_ofm_block_depth(arch, op)
+        vol = u.get_first_job_input_volume(arch, u.shape3d_to_rect(op.ifm.shape), u.shape3d_to_rect(op.ofm.shape), depth, Block(bw, bh, bd), kernel,
+                                           a.NpuPadding(0, 0, 0, 0), j)
+    if kind == "conv":
+        idb_depth = arch.calc_ifm_block_depth(ifm_depth, 8)
+        jobs_per_block = -(-ifm_depth // idb_depth)
+    else:
+        jobs_per_block = 1
+    b = L(j) / jobs_per_block
+    total = wb * hb * db
+    if vol is None:
+        return [("no volume only beyond the last OFM block", b >= total)]
+    zi, xi, yi = b % db, (b / db) % wb, b / (db * wb)
+    cl = [("job j belongs to an existing OFM block", b < total),
+          ("the volume starts at the column of OFM block j // jobs_per_block", L(vol[0].x) == xi * bw * stride),
+          ("the volume starts at the row of that block", L(vol[0].y) == yi * bh * stride)]
+    if kind == "conv":
+        s = L(j) % jobs_per_block
+        cl.append(("the volume holds the IFM depth slice the job accumulates", z3.And(L(vol[0].z) <= s * idb_depth, L(vol[1].z) >= z3.If((s + 1) * idb_depth < ifm_depth, (s + 1) * idb_depth, ifm_depth))))
+    else:
+        cl.append(("the volume holds the channels of that OFM block", z3.And(L(vol[0].z) <= zi * bd, L(vol[1].z) >= zi * bd + bd)))
+    return cl
+
+
+FUNCS = {"job_volume": job_volume, "footprint_strided": footprint_strided, "area_ranges": area_ranges, "block_coords": block_coords, "programmed_addresses": programmed_addresses, "ifm_block": ifm_block, "waits": waits, "wait_step": wait_step, "rangeset": rangeset, "access": access, "dma_access": dma_access, "blockdep": blockdep, "shram_writes": shram_writes}
 
 
 def instances(tier, seed):
@@ -524,6 +592,13 @@ def instances(tier, seed):
                         continue
                     out.append(dict(key="area_ranges/%s/w%d_d%d_e%d" % (layout, width, depth, elem), fn="area_ranges",
                                     params=dict(layout=layout, width=width, depth=depth, elem=elem, hmax=4 if tier == "quick" else 6), weight=40))
+    for kind in ("conv", "depthwise", "pool"):
+        for (wb, hb, db) in ((1, 1, 1), (2, 1, 1), (2, 2, 1), (1, 1, 2), (2, 1, 2), (3, 2, 2), (1, 2, 3)):
+            for stride in (1, 2):
+                out.append(dict(key="job_volume/%s/%dx%dx%d/s%d" % (kind, wb, hb, db, stride), fn="job_volume",
+                                params=dict(accel="Ethos_U55_128", kind=kind, wb=wb, hb=hb, db=db, stride=stride)))
+    for fd in (0, 1):
+        out.append(dict(key="footprint_strided/%s" % ("after_dense" if fd else "alone"), fn="footprint_strided", params=dict(first_dense=fd)))
     for wb in (1, 2, 3):
         for hb in (1, 2, 3):
             for db in (1, 2, 3):
